@@ -646,7 +646,7 @@ def c02_merge(tier, rng):
 
 
 # ---- which strategy and which feature level each count table of a run is produced with: the real ReadAssignmentAggregator, enumerated ------------
-@finite("C02.aggregator_wiring", ["C02"], note="the real ReadAssignmentAggregator built for every pair (--gene_quantification, --transcript_quantification) "
+@finite("C02.aggregator_wiring", ["C02", "C09"], note="the real ReadAssignmentAggregator built for every pair (--gene_quantification, --transcript_quantification) "
         "with annotation, grouping, exon counting and model construction switched on: the gene tables (plain and grouped) use the gene extractor "
         "with the gene strategy, the transcript and transcript-model tables (plain and grouped) the transcript extractor with the transcript "
         "strategy, and all six counters are registered with the composite counters that feed them")
